@@ -47,6 +47,24 @@ CHECKS = {
             "write->load round trips over the full option/value/label product, cross-format agreement "
             "of the bundled datasets, and train-then-test order of every bundled loader",
             "4/C18", TRUST + "Bundled files are printed at different precision per format (compared to one unit of the last printed digit)."),
+    "C03": ("model_checking", "E2", E2 + "; metamorphic +7 index-shift twin on every history",
+            "for every forecaster program of the menu (incl. depth-2 compositions) the complete tree of "
+            "call histories over {predict, update(size, update_params)} up to depth 3 after fit is "
+            "executed on the real object; after every call the cutoff and the forecast index are "
+            "compared with cutoff+steps, and the whole history is re-run on a twin shifted by +7",
+            "4/C03", TRUST + "Integer/range indexes only."),
+    "C08": ("exploration", "E1", E1,
+            "every (base forecaster, grid form, grid/randomized search, splitter, series, scorer direction, "
+            "refit, strategy) below the bound: each cv_results_ row equals an independent evaluate of "
+            "that candidate, best_* lie in the arg-best set of the declared direction, the refitted tuner "
+            "equals a forecaster built from best_params_, and without refit predict/update raise NotFittedError",
+            "4/C08", TRUST + "evaluate itself is C07's subject."),
+    "C15": ("model_checking", "E2", "explicit-state breadth-first exploration of the conversion graph "
+            "(state = panel x representation, transition = real conversion function) with a harness-side decoder as reference",
+            "every path of length <=3 (thorough <=4) from every representation of 81 tagged panels through the 11 "
+            "conversion functions with their argument variants decodes to the original panel and equals the direct "
+            "conversion; nestedness predicates and check_X coercions on every reached state",
+            "4/C15", TRUST + "from_long_to_nested(column_names=None) documents generated names; accepted."),
 }
 
 PENDING_REASON = "check not built yet in this round; planned in DESIGN.md section 4 (engine listed there)"
